@@ -751,6 +751,69 @@ enum_zones(void)
 	}
 }
 
+/* limits whose DTSTART and DTEND lie on the two sides of a DST switch of their (common) zone: the limit is the
+ * real time between them, not the difference of the wall clocks */
+static void
+enum_dst(void)
+{
+	static const struct { const char *z, *b, *e; long L; } T[] = {
+		{"Europe/Berlin", "20310330T015958", "20310330T030002", 4},		/* 00:59:58Z .. 01:00:02Z */
+		{"America/New_York", "20310309T013000", "20310309T033000", 3600},	/* 06:30Z .. 07:30Z */
+		{"Europe/Berlin", "20311025T220000", "20311026T070000", 36000},		/* 20:00Z .. 06:00Z */
+		{"America/New_York", "20311102T003000", "20311102T023000", 10800},	/* 04:30Z .. 07:30Z */
+		{"Europe/Berlin", "20310329T015958", "20310329T030002", 3604},		/* control: the day before */
+	};
+	static char user[2048];
+	for (size_t i = 0; i < sizeof(T) / sizeof(*T); i++) {
+		for (int lead = 0; lead < 2; lead++) {
+			size_t o;
+			int st, nev = 0;
+			const char *ev;
+			if (!vd_next()) continue;
+			o = (size_t)snprintf(user, sizeof(user), "BEGIN:VCALENDAR\nVERSION:2.0\n");
+			if (lead) {
+				/* another zone is used first */
+				o += (size_t)snprintf(user + o, sizeof(user) - o, "BEGIN:VEVENT\nUID:c14-lead\nSUMMARY:true\nDTSTART;TZID=Asia/Tokyo:20310610T090000\nDTEND;TZID=Asia/Tokyo:20310610T090010\nEND:VEVENT\n");
+			}
+			o += (size_t)snprintf(user + o, sizeof(user) - o, "BEGIN:VEVENT\nUID:c14-dst\nSUMMARY:true\nDTSTART;TZID=%s:%s\nDTEND;TZID=%s:%s\nEND:VEVENT\nEND:VCALENDAR\n", T[i].z, T[i].b, T[i].z, T[i].e);
+			vd_desc("limit %ld s given as DTSTART/DTEND local times of %s on the two sides of a DST switch%s; user file: %s", T[i].L, T[i].z, lead ? " (another zone used first)" : "", user);
+			for (char *p = vd_sh->desc; *p; p++) if (*p == '\n') *p = '|';
+			vd_shape("dst-span/%s", i + 1 == sizeof(T) / sizeof(*T) ? "control" : "across-switch");
+			st = run_chain(user, 0);
+			if (st) {
+				vd_viol("chain-died", "stage %d of the chain died, wait status %#x", S->stage, st);
+				continue;
+			}
+			for (ev = strstr(S->q_text, "BEGIN:VEVENT"); ev != NULL; ev = strstr(ev + 1, "BEGIN:VEVENT")) {
+				char blk[1024], tmp[128], t2[64];
+				const char *end = strstr(ev, "END:VEVENT");
+				size_t bl = end ? (size_t)(end - ev) : strlen(ev);
+				long long got = -2;
+				if (bl >= sizeof(blk)) bl = sizeof(blk) - 1;
+				memcpy(blk, ev, bl);
+				blk[bl] = '\0';
+				if (!prop(blk, "UID", tmp, sizeof(tmp)) || strcmp(tmp, "c14-dst")) continue;
+				nev++;
+				if (prop(blk, "DURATION", tmp, sizeof(tmp))) {
+					got = rd_dur(tmp);
+				} else if (prop(blk, "DTEND", tmp, sizeof(tmp))) {
+					long long e = rd_utc(tmp);
+					long long b = prop(blk, "DTSTART", t2, sizeof(t2)) ? rd_utc(t2) : -1;
+					got = e >= 0 && b >= 0 ? e - b : -1;
+				}
+				if (got != T[i].L) {
+					char sig[200];
+					snprintf(sig, sizeof(sig), "echsq-text/dst-span/%s/%s", T[i].z, ratio(got, T[i].L));
+					vd_viol(sig, "the text echsq hands on spans %lld s, the real time between DTSTART and DTEND is %ld s", got, T[i].L);
+				}
+			}
+			if (nev != 1) vd_viol("echsq-text/dst-span/count", "%d events c14-dst in the text echsq hands on", nev);
+			vd_nontrivial();
+			vd_count("dst_files", 1);
+		}
+	}
+}
+
 /* ---------------------------------------------------------------- dump (for the real-time runs) */
 static int
 dump(void)
@@ -792,6 +855,7 @@ enumerate(void)
 		enum_due();
 	} else if (!strcmp(mode, "zones")) {
 		enum_zones();
+		enum_dst();
 	} else {
 		enum_chain();
 	}
